@@ -227,6 +227,44 @@ theorem ref_members (fuel : Nat) (ih : Ref fuel) :
       simp only [applyResult_stack']
       exact ih.members { s with trace := (c1.applyResult (.break_ d)).trace } _ rest _ ⟨st0, rfl⟩
 
+/-- only `ctx.sub` matters to the members of a pipeline -/
+theorem specPipeMembers_sub (fuel : Nat) : ∀ (ctx ctx' : Ctx) s cs f, ctx.sub = ctx'.sub →
+    specPipeMembers fuel ctx s cs f = specPipeMembers fuel ctx' s cs f := by
+  induction fuel with
+  | zero => intro ctx ctx' s cs f _; simp [specPipeMembers]
+  | succ n ih =>
+    intro ctx ctx' s cs f h
+    cases cs with
+    | nil => simp [specPipeMembers]
+    | cons c rest =>
+      simp only [specPipeMembers, h]
+      generalize specCmd n ctx'.sub s c = x
+      obtain ⟨c1, r⟩ := x
+      cases r with
+      | outOfFuel => rfl
+      | continue_ => exact ih _ _ _ _ _ h
+      | break_ d => exact ih _ _ _ _ _ h
+
+/-- the subshell around a job-controlled pipeline is invisible to the Spec context of its members -/
+theorem ctxOf_enterJc_sub (s : St) : (ctxOf s.enterJc.stack).sub = (ctxOf s.stack).sub := by
+  unfold St.enterJc
+  split
+  · simp [St.push, Ctx.sub]
+  · rfl
+
+theorem sbs_enterJc {a b : St} (h : SameButStack a b) : SameButStack a.enterJc b := by
+  unfold St.enterJc
+  split
+  · exact sbs_push h _
+  · exact h
+
+theorem leaveJc_eq (s s1 : St) (h : s1.stack = s.enterJc.stack) : s.leaveJc s1 = { s1 with stack := s.stack } := by
+  unfold St.leaveJc St.enterJc at *
+  split
+  · simp_all [St.push, St.pop]
+  · simp_all only [Bool.not_eq_true, ite_false, Bool.false_eq_true]
+    cases s1; simp_all
+
 theorem ref_cmds (fuel : Nat) (ih : Ref fuel) :
     ∀ s s' cs, SameButStack s s' →
       RelS (execCommands (fuel+1) s cs) (specCommands (fuel+1) (ctxOf s.stack) s' cs) := by
@@ -236,15 +274,18 @@ theorem ref_cmds (fuel : Nat) (ih : Ref fuel) :
   | [c] => simp only [execCommands, specCommands]; exact ih.cmd s s' c h
   | c :: d :: t =>
     simp only [execCommands, specCommands]
-    have b1 := (bal fuel).members s (c :: d :: t) 0
-    obtain ⟨s1, r, st1, hx, hy⟩ := relS_cases (ih.members s s' (c :: d :: t) 0 h)
+    have b1 := (bal fuel).members s.enterJc (c :: d :: t) 0
+    have hm := ih.members s.enterJc s' (c :: d :: t) 0 (sbs_enterJc h)
+    rw [specPipeMembers_sub fuel (ctxOf s.enterJc.stack) (ctxOf s.stack) _ _ _ (ctxOf_enterJc_sub s)] at hm
+    obtain ⟨s1, r, st1, hx, hy⟩ := relS_cases hm
     rw [hx] at b1
     rw [hx, hy]
     simp only at b1
+    rw [leaveJc_eq s s1 b1]
     cases r with
     | continue_ =>
       simp only
-      rw [applyErrexit_eq s1 st1, b1]
+      rw [applyErrexit_eq { s1 with stack := s.stack } st1]
       exact relS_mk ⟨st1, rfl⟩
     | break_ d => exact relS_mk ⟨st1, rfl⟩
     | outOfFuel => exact relS_mk ⟨st1, rfl⟩
@@ -414,6 +455,7 @@ theorem ref_cmd (fuel : Nat) (ih : Ref fuel) :
   | ret n => simp only [execCmd, specCmd]; exact relS_finish' _ st0 _ _ rfl
   | exit n => simp only [execCmd, specCmd]; exact relS_finish' _ st0 _ _ rfl
   | setE on => simp only [execCmd, specCmd]; exact relS_finish' _ st0 _ _ rfl
+  | setM on => simp only [execCmd, specCmd]; exact relS_finish' _ st0 _ _ rfl
   | unknown => simp only [execCmd, specCmd]; exact relS_finish' _ st0 _ _ rfl
   | tick c k =>
     simp only [execCmd, specCmd]
